@@ -200,7 +200,21 @@ void archive_case(Kind kind, const std::vector<uint8_t>& bytes, const std::vecto
 	if (count && count <= 16) {
 		bool safe = true; std::vector<std::string> names;
 		for (size_t i = 0; i < count && safe; ++i) { try { names.push_back(ar->GetName(i)); safe = safe_name(names.back()); } catch (const std::exception&) { safe = false; } }
-		if (safe) { std::string d = scratch_path("c05_all"); mkdir(d.c_str(), 0700); guarded([&] { ar->ExtractAllFiles(d); }); st.cls("extract_all_run"); for (auto& nm : names) remove((d + "/" + nm).c_str()); }
+		if (safe) { std::string d = scratch_path("c05_all"); mkdir(d.c_str(), 0700); for (auto& nm : names) remove((d + "/" + nm).c_str());
+			Out oa = guarded([&] { ar->ExtractAllFiles(d); }); st.cls("extract_all_run");
+			// the convenience call is bound by the same extent rule as member-by-member extraction: when it reports success every member's recorded
+			// extent lies inside the file and every uncompressed member's file holds exactly that extent (never a short delivery)
+			bool distinct = true; for (size_t i = 0; i < names.size(); ++i) for (size_t j = i + 1; j < names.size(); ++j) if (names[i] == names[j]) distinct = false;
+			if (oa == Out::Ok && parseAgrees && distinct) for (size_t i = 0; i < count; ++i) {
+				std::vector<uint8_t> xb; bool have = read_file(d + "/" + names[i], xb);
+				if (kind == KVol) { uint64_t off = L.entries[i].blockOffset;
+					V_CHECK(off + 8 <= bytes.size() && refvol::tagat(bytes, off, "VBLK"), "ExtractAllFiles reported success although the block header of member " << i << " is not inside the file");
+					uint64_t len = refvol::get32(bytes, off + 4) & 0x7FFFFFFFu;
+					V_CHECK(off + 8 + len <= bytes.size(), "ExtractAllFiles reported success although the recorded extent [" << off + 8 << ",+" << len << ") of member " << i << " is not inside the " << bytes.size() << "-byte file (delivered short instead of refused)");
+					if (L.entries[i].comp == refvol::CompUncompressed) V_CHECK(have && xb.size() == len && std::equal(xb.begin(), xb.end(), bytes.begin() + off + 8), "ExtractAllFiles wrote " << xb.size() << " bytes for member " << i << " that are not exactly file[" << off + 8 << ",+" << len << ")"); }
+				else { uint64_t off = clmExt[i].first, len = clmExt[i].second; V_CHECK(off + len <= bytes.size(), "ExtractAllFiles reported success although the extent of CLM member " << i << " is not inside the file"); V_CHECK(have && xb.size() == len + 46 && std::equal(xb.begin() + 46, xb.end(), bytes.begin() + off), "ExtractAllFiles: CLM member " << i << " does not carry exactly the recorded extent"); }
+				st.cls("extract_all_extent_checked"); }
+			for (auto& nm : names) remove((d + "/" + nm).c_str()); }
 		else st.cls("extract_all_skipped_unsafe_names");
 	}
 	if (okAfterErr) { uint64_t h = fnv1a(bytes.data(), bytes.size(), kind); for (auto& c : calls) h = hmix(h, c.op % 10 * 1000 + c.idx % 1000); st.nt(h); st.cls("success_after_failure"); }
